@@ -183,6 +183,11 @@ def _eq(a, b):
 
 def check_single(spec, T):
     a = build_obj(spec)
+    if spec["type"] == "crs":
+        a.epsg  # lazily looked-up state must not change what a clone looks like
+    elif spec["type"] == "gcp":
+        a.pix2wld(0.5, 0.5)  # fitted polynomials are lazily cached state too
+        a.extent
     require(_eq(a, a), "not reflexive: %s", spec["type"])
     b = build_obj(spec)
     require(_eq(a, b) and _eq(b, a), "two constructions from the same specification are unequal: %r", _short(spec))
@@ -384,8 +389,12 @@ def s_history(draw):
         elif kind == "burst":
             ops.append(["burst", draw(st.integers(0, 119)), draw(st.integers(5, 40)), draw(st.sampled_from(["int", "pyproj", "wkt2"]))])
         elif kind in ("drop", "pickle", "wrap", "epsg") and nobj:
-            ops.append([kind, draw(st.integers(0, nobj - 1))])
+            k = draw(st.integers(0, nobj - 1))
+            ops.append([kind, k])
             if kind in ("pickle", "wrap"):
+                nobj += 1
+            elif kind == "epsg" and draw(st.booleans()):
+                ops.append(["pickle", k])  # clone after the lazy EPSG lookup has run
                 nobj += 1
         elif kind == "tr" and nobj >= 1:
             ops.append(["tr", draw(st.integers(0, nobj - 1)), draw(st.integers(0, nobj - 1)), draw(st.booleans())])
